@@ -291,6 +291,151 @@ def double_restore_family():
     return n, bad
 
 
+def copies_family():
+    """a deep copy / an unpickled copy of a stream is another stream: it
+    continues exactly where the original stood, and from then on the two do
+    not influence each other (draws, re-seeding, reset, restore)"""
+    import copy
+    import pickle
+    from pydsol.core.streams import MersenneTwister as MT, StreamInformation
+    D = [("f",), ("b",), ("i", 0, 9), ("i", -3, 2 ** 40)]
+    blocks = [()] + [(a,) for a in D] + [(a, b) for a in D for b in D]
+    n = 0
+    bad = []
+
+    def dup(how, s):
+        if how == "deepcopy":
+            return copy.deepcopy(s)
+        if how == "pickle":
+            return pickle.loads(pickle.dumps(s))
+        if how == "via-info":
+            info = StreamInformation()
+            info.add_stream("mine", s)
+            return copy.deepcopy(info).get_stream("mine")
+        raise ValueError(how)
+    for how in ("deepcopy", "pickle", "via-info"):
+        for pre in blocks:
+            for mid in blocks[1:]:
+                for after in ("draw", "reset", "set_seed", "restore"):
+                    n += 1
+                    ref = MT(4711)
+                    s = MT(4711)
+                    for op in pre:
+                        draw(ref, op)
+                        draw(s, op)
+                    try:
+                        c_ = dup(how, s)
+                    except Exception as ex:  # noqa
+                        bad.append(("copy-raised", how, type(ex).__name__))
+                        break
+                    st = s.save_state()
+                    want = [draw(ref, op) for op in mid + mid]
+                    try:
+                        got_c = [draw(c_, op) for op in mid]   # copy first
+                        if after == "reset":
+                            c_.reset()
+                        elif after == "set_seed":
+                            c_.set_seed(99)
+                        elif after == "restore":
+                            c_.restore_state(st)
+                        got_s = [draw(s, op) for op in mid + mid]
+                    except Exception as ex:  # noqa
+                        bad.append(("copy-use-raised", how, list(pre),
+                                    type(ex).__name__))
+                        continue
+                    if got_c != want[:len(mid)]:
+                        bad.append(("copy-does-not-continue-the-sequence", how,
+                                    list(pre), list(mid), got_c,
+                                    want[:len(mid)]))
+                    if got_s != want:
+                        bad.append(("original-disturbed-by-its-copy", how,
+                                    after, list(pre), list(mid), got_s, want))
+                    # the copy after reset / re-seed / restore
+                    try:
+                        got2 = [draw(c_, op) for op in mid]
+                    except Exception as ex:  # noqa
+                        bad.append(("copy-use-raised", how, after,
+                                    type(ex).__name__))
+                        continue
+                    if after == "reset":
+                        f = MT(4711)
+                    elif after == "set_seed":
+                        f = MT(99)
+                    else:
+                        f = None
+                    if f is not None:
+                        exp2 = [draw(f, op) for op in mid]
+                    elif after == "restore":
+                        exp2 = want[:len(mid)]
+                    else:
+                        exp2 = want[len(mid):]
+                    if got2 != exp2:
+                        bad.append(("copy-after-" + after, how, list(pre),
+                                    list(mid), got2, exp2))
+                    if len(bad) > 100:
+                        return n, bad
+    return n, bad
+
+
+def many_seeds_family():
+    """dozens of distinct seeds in one process - on fresh stream objects and
+    on ONE long-lived object - never change what a seed stands for"""
+    from pydsol.core.streams import MersenneTwister as MT
+    OPS = [("f",), ("i", 0, 9), ("b",), ("f",), ("i", -5, 2 ** 50)]
+    n = 0
+    bad = []
+    S0 = [7, 0, -3, 2 ** 40 + 1]
+    base = {}
+    for s0 in S0:
+        x = MT(s0)
+        base[s0] = [draw(x, op) for op in OPS]
+    old = {s0: MT(s0) for s0 in S0}
+    longlived = MT(S0[0])
+    made = 0
+    for K in range(1, 49):
+        # K-th other seed, on a fresh object and on the long-lived one
+        other = 100000 + 17 * K
+        y = MT(other)
+        oy = [draw(y, op) for op in OPS]
+        longlived.set_seed(other)
+        ol = [draw(longlived, op) for op in OPS]
+        made += 1
+        n += 1
+        if ol != oy:
+            bad.append(("set_seed-differs-from-fresh-stream", K, other))
+        longlived.reset()
+        if [draw(longlived, op) for op in OPS] != oy:
+            bad.append(("reset-differs-from-fresh-stream", K, other))
+        for s0 in S0:
+            n += 1
+            f = MT(s0)
+            got = [draw(f, op) for op in OPS]
+            if got != base[s0]:
+                bad.append(("fresh-stream-depends-on-seeds-used-before", s0,
+                            K, got, base[s0]))
+            o = old[s0]
+            o.reset()
+            if [draw(o, op) for op in OPS] != base[s0]:
+                bad.append(("reset-depends-on-seeds-used-before", s0, K))
+            if o.original_seed() != s0 or o.seed() != s0:
+                bad.append(("seed-report", s0, K, o.original_seed(),
+                            o.seed()))
+        n += 1
+        ll = MT(3)
+        for j in range(K):
+            ll.set_seed(500 + j)
+            draw(ll, ("f",))
+        ll.set_seed(S0[0])
+        if [draw(ll, op) for op in OPS] != base[S0[0]]:
+            bad.append(("set_seed-after-many-re-seeds", K))
+        if ll.original_seed() != 3:
+            bad.append(("original-seed-lost-after-re-seeds", K,
+                        ll.original_seed()))
+        if len(bad) > 60:
+            break
+    return n, bad
+
+
 def default_streams():
     """the 'default' stream every StreamInformation creates for itself: each
     instance owns one, all start from the same documented seed, and using or
@@ -420,6 +565,18 @@ def run(ctx):
                       {"default": True})
     ctx.part("default streams of stream-information objects", cases=nd)
     total += nd
+    nc, bad = copies_family()
+    for b in bad[:20]:
+        ctx.violation("C12:%s:%s" % (b[0], b[1]), "copied stream: %s" % (
+            str(b)[:400],), {"copies": True})
+    ctx.part("deep copies / pickled copies at every position", cases=nc)
+    nm, bad = many_seeds_family()
+    for b in bad[:20]:
+        ctx.violation("C12:%s" % b[0], "many seeds: %s" % (str(b)[:400],),
+                      {"many_seeds": True})
+    ctx.part("48 further distinct seeds (fresh objects and one long-lived "
+             "object)", cases=nm)
+    total += nc + nm
     n, bad, ok = scripted_range()
     ctx.part("scripted uniforms x ranges", cases=n, applied=ok,
              violations=len(bad))
@@ -451,6 +608,10 @@ def replay(data):
     if data.get("scripted"):
         n, bad, ok = scripted_range()
         return bad[:3] or None
+    if data.get("copies"):
+        return copies_family()[1][:3] or None
+    if data.get("many_seeds"):
+        return many_seeds_family()[1][:3] or None
     from pydsol.core.streams import MersenneTwister as MT
     if data.get("cls") == "block":
         MT = block_stream_class()
